@@ -7,6 +7,9 @@ def concatenate(arrays, axis=0, compressed_axes=None):
     from .compressed import GCXS
 
     check_consistent_fill_value(arrays)
+    if axis is None:
+        axis = 0
+        arrays = [x.flatten() for x in arrays]
     arrays = [arr if isinstance(arr, GCXS) else GCXS(arr, compressed_axes=(axis,)) for arr in arrays]
     axis = normalize_axis(axis, arrays[0].ndim)
     if any(x.ndim != arrays[0].ndim for x in arrays):
